@@ -39,3 +39,74 @@ field("_initial_value", RefOf(CV))
 # ---------------------------------------------------------------- module state
 glob(P + "cpp_vars.unique_var_index", Int)
 glob(P + "cpp_types.g_method_type_dict", TDict(Str, TDict(Str, MethodInvokeInfo)))
+
+# ---------------------------------------------------------------- python ast nodes (external classes, closed list in pyvc/front.py)
+AST = RefOf("ast.AST")
+field("func", Ref)
+field("args", TList(Ref))
+field("args", Ref, cls="ast.Lambda")            # Lambda.args is an ast.arguments object
+field("args", TList(Ref), cls="ast.arguments")  # arguments.args is a list of ast.arg
+field("keywords", TList(Ref))
+field("arg", Str)
+field("op", Ref)
+field("left", Ref)
+field("right", Ref)
+field("operand", Ref)
+field("value", Ref)
+field("value", PYVAL, cls="ast.Constant")
+field("ops", TList(Ref))
+field("comparators", TList(Ref))
+field("values", TList(Ref))
+field("keys", TList(Ref))
+field("elts", TList(Ref))
+field("test", Ref)
+field("body", Ref)
+field("orelse", Ref)
+field("id", Str)
+field("attr", Str)
+field("slice", Ref)
+field("n", PYVAL)
+field("s", Str)
+field("rep", Ref)      # dynamic attribute set by crep.set_rep; null = absent
+field("scope", Ref)    # dynamic attribute set by crep.set_rep(.., scope); null = absent
+
+# ---------------------------------------------------------------- C++ representations
+REP = RefOf(P + "cpp_representation.cpp_rep_base")
+SEQ = P + "cpp_representation.cpp_sequence"
+field("_sequence", Ref)
+field("_iterator", Ref)
+field("_type", Ref, cls=SEQ)
+field("_node", Ref)
+field("_values", TList(Ref))
+field("_values", TDict(Ref, Ref), cls=P + "cpp_representation.cpp_dict")
+field("filename", Str)
+field("treename", Str)
+
+# ---------------------------------------------------------------- IR: blocks and statements
+BLOCK = P + "statement.block"
+field("_statements", TList(Ref))
+field("_variables", TList(Ref))
+field("_rep_dict", TDict(Ref, Ref))
+field("_collection", Ref)
+field("_loop_variable", Ref)
+field("_expr", Ref)
+field("_target", Ref)
+field("_value", Ref)
+field("_line", Str)
+field("_tree_name", Str)
+field("_leaves", TList(TTup([Str, Ref])))
+field("_scope_stack", TList(Ref))
+field("_block", Ref)
+field("_book_block", Ref)
+field("_class_vars", TList(Ref))
+field("_include_files", TList(Str))
+field("_link_libraries", TList(Str))
+field("_gc", RefOf(P + "generated_code.generated_code"))
+field("_arg_stack", Ref)
+field("_prefix", Str)
+
+# ---------------------------------------------------------------- plug-in ast nodes
+field("cpp_name", Str)
+field("include_files", TList(Str))
+field("cpp_return_type", Ref)   # FunctionAST.cpp_return_type: whatever the table stored (a terminal object)
+field("fields", TList(Ref))
